@@ -5,6 +5,7 @@ import (
 	"go/constant"
 	"go/token"
 	"go/types"
+	"os"
 	"regexp"
 	"sort"
 	"strings"
@@ -211,6 +212,31 @@ func runC10(c *Ctx) {
 			})
 		}
 		c.Check("C10.E1", "ietf-json-patch:result-not-written", len(writes) == 0, h.Pos(), "the ietf-json-patch handler stores nothing into the document it returns", writes...)
+		// the document handed to the JSON-patch library is written by encoding/json's Marshal — the encoder the patch is
+		// written with: the library compares scalar values of a `test` operation byte for byte, so a second spelling of
+		// the same text (HTML escaping switched off on one side) turns an applicable patch away
+		if db := c.Method("document", "Document", "Bytes"); db != nil {
+			ext := map[string]bool{}
+			for _, g := range append([]*ssa.Function{db}, c.reachableModuleFuncs([]*ssa.Function{db})...) {
+				forEachInstr(g, func(in ssa.Instruction) {
+					if cl, ok := in.(*ssa.Call); ok {
+						if x := cl.Call.StaticCallee(); x != nil && !inModule(x) {
+							ext[x.String()] = true
+						}
+					}
+				})
+			}
+			var other []string
+			for n := range ext {
+				if n != "encoding/json.Marshal" && n != "encoding/json.Unmarshal" {
+					other = append(other, n)
+				}
+			}
+			sort.Strings(other)
+			c.Check("C10.E1", "ietf-json-patch:document-written-by-json.Marshal", ext["encoding/json.Marshal"] && len(other) == 0, db.Pos(), fmt.Sprintf("(Document).Bytes reaches encoding/json.Marshal / Unmarshal only (others: %v)", other))
+		} else {
+			c.Unresolved("C10.E1", "(document.Document).Bytes")
+		}
 	} else {
 		c.Unresolved("C10.E1", "handler for ietf-json-patch")
 	}
@@ -225,6 +251,9 @@ func runC10(c *Ctx) {
 	c.composerSkeletons("C10.X2", handlers)
 	c.Min("C10.X2", 12)
 	c.Assume("the documented per-action skeletons are encoded in c10c14.go from the property statement; element-level semantics of the RFC 6902 library are outside the claim")
+	// the handlers read the document's keys and services through the document package's accessors: each reads the member
+	// the composer writes, and nothing else of the document
+	c.documentAccessorRule()
 }
 
 func runC14(c *Ctx) {
@@ -376,8 +405,15 @@ func runC14(c *Ctx) {
 			}
 			hasSort := false
 			forEachInstr(sk, func(in ssa.Instruction) {
-				if cl, ok := in.(*ssa.Call); ok && cl.Call.StaticCallee() != nil && cl.Call.StaticCallee().String() == "sort.Strings" {
-					hasSort = true
+				if cl, ok := in.(*ssa.Call); ok && cl.Call.StaticCallee() != nil {
+					g := cl.Call.StaticCallee()
+					if o := g.Origin(); o != nil {
+						g = o
+					}
+					// sort.Strings and slices.Sort order strings the same way (ascending, byte-wise)
+					if n := g.String(); n == "sort.Strings" || (n == "slices.Sort" && len(cl.Call.Args) == 1 && types.TypeString(cl.Call.Args[0].Type().Underlying(), nil) == "[]string") {
+						hasSort = true
+					}
 				}
 			})
 			okSorted = okSorted && hasSort
@@ -733,14 +769,26 @@ func (c *Ctx) composerHandlers() map[string]*ssa.Function {
 	return out
 }
 
+var memberRe0 = regexp.MustCompile(`\{[A-Za-z,]*\}`)
+
 // composerSkeletons: decision skeletons of the list handlers (shared by C10 and by C14, whose
 // document -> patches -> document claim rests on the add-handlers).
 func (c *Ctx) composerSkeletons(rule string, handlers map[string]*ssa.Function) {
 	// ---- X2 skeletons
 	type site struct{ kind, loopOver, setFrom, polarity string }
-	skeleton := func(h *ssa.Function) []string {
-		var out []string
-		classify := func(v ssa.Value) string {
+	// hostOf: the function that holds the handler's element loops — the handler itself, or the one unexported helper it
+	// hands the existing and the new entries to (`merge(doc.PublicKeys(), added)`), whose parameters are then classified
+	// by what the handler passes for them
+	type hostT struct {
+		fn       *ssa.Function
+		classify func(v ssa.Value) string
+	}
+	hostMemo := map[*ssa.Function]hostT{}
+	hostOf := func(h *ssa.Function) hostT {
+		if ht, ok := hostMemo[h]; ok {
+			return ht
+		}
+		classifyH := func(v ssa.Value) string {
 			sl := backSlice(v)
 			d, e := sliceHas(sl, isParam(h, 0)), sliceHas(sl, isParam(h, 1))
 			switch {
@@ -753,6 +801,83 @@ func (c *Ctx) composerSkeletons(rule string, handlers map[string]*ssa.Function) 
 			}
 			return "fresh"
 		}
+		ht := hostT{fn: h, classify: classifyH}
+		if len(naturalLoops(h)) == 0 {
+			var calls []*ssa.Call
+			forEachInstr(h, func(in ssa.Instruction) {
+				if cl, ok := in.(*ssa.Call); ok {
+					if g := cl.Call.StaticCallee(); g != nil && inModule(g) && g.Blocks != nil && pkgPathOf(g) == pkgPathOf(h) && g.Object() != nil && !g.Object().Exported() && g.Signature.Recv() == nil && len(naturalLoops(g)) > 0 && g.Signature.Results().Len() == 1 {
+						if _, isSl := g.Signature.Results().At(0).Type().Underlying().(*types.Slice); isSl {
+							// (handed the existing entries and the new ones as separate arguments)
+							nd, ne := 0, 0
+							for _, a := range cl.Call.Args {
+								if os.Getenv("STCHECK_HOST") != "" {
+									fmt.Printf("HOSTARG %s %s -> %s\n", g.Name(), a.Name(), classifyH(a))
+								}
+								switch cls := classifyH(a); {
+								case cls == "entry":
+									ne++
+								case strings.HasPrefix(cls, "doc") && !strings.HasSuffix(cls, "+entry"):
+									nd++
+								}
+							}
+							if nd > 0 && ne > 0 {
+								calls = append(calls, cl)
+							}
+						}
+					}
+				}
+			})
+			if os.Getenv("STCHECK_HOST") != "" {
+				fmt.Printf("HOST %s loops=%d calls=%d\n", h.Name(), len(naturalLoops(h)), len(calls))
+			}
+			if len(calls) == 1 {
+				cl := calls[0]
+				g := cl.Call.StaticCallee()
+				ht = hostT{fn: g, classify: func(v ssa.Value) string {
+					sl := backSlice(v)
+					d, e := false, false
+					mem := map[string]bool{}
+					for i, p := range g.Params {
+						if !sliceHas(sl, isParam(g, i)) || i >= len(cl.Call.Args) {
+							continue
+						}
+						_ = p
+						cls := classifyH(cl.Call.Args[i])
+						if strings.HasPrefix(cls, "doc") {
+							d = true
+							if m := memberRe0.FindString(cls); m != "" {
+								mem[m] = true
+							}
+						}
+						if cls == "entry" || strings.HasSuffix(cls, "+entry") {
+							e = true
+						}
+					}
+					var ms []string
+					for m := range mem {
+						ms = append(ms, m)
+					}
+					sort.Strings(ms)
+					switch {
+					case d && e:
+						return "doc" + strings.Join(ms, "") + "+entry"
+					case d:
+						return "doc" + strings.Join(ms, "")
+					case e:
+						return "entry"
+					}
+					return "fresh"
+				}}
+			}
+		}
+		hostMemo[h] = ht
+		return ht
+	}
+	skeleton := func(h0 *ssa.Function) []string {
+		var out []string
+		ht := hostOf(h0)
+		h, classify := ht.fn, ht.classify
 		loops := naturalLoops(h)
 		nestedIn := func(inner, outer *loop) bool {
 			if inner == outer || len(inner.blocks) >= len(outer.blocks) {
@@ -793,78 +918,136 @@ func (c *Ctx) composerSkeletons(rule string, handlers map[string]*ssa.Function) 
 					}
 				}
 			}
-			for b := range l.blocks {
-				for _, in := range b.Instrs {
-					kind := ""
-					switch x := in.(type) {
-					case *ssa.Call:
-						if bi, isB := x.Call.Value.(*ssa.Builtin); isB && bi.Name() == "append" {
-							kind = "append(" + classify(x.Call.Args[1]) + "-element)"
-						} else if g := x.Call.StaticCallee(); g != nil && inModule(g) && g.Signature.Results().Len() == 0 && len(x.Call.Args) == 2 && c.replacesByID(g) {
-							kind = "update-in-place(" + classify(x.Call.Args[1]) + "-element)"
+			var scan func(in ssa.Instruction, b *ssa.BasicBlock, inFrame func(*ssa.BasicBlock) bool, cls func(ssa.Value) string, depth int)
+			scan = func(in ssa.Instruction, b *ssa.BasicBlock, inFrame func(*ssa.BasicBlock) bool, cls func(ssa.Value) string, depth int) {
+				// the loop body written as a function literal that the loop calls with the element: its instructions are
+				// the iteration's, its captured variables read as the cells of the enclosing function, its parameters as
+				// what the loop hands over
+				if cl, isC := in.(*ssa.Call); isC && depth == 0 {
+					if lit := localLiteral(cl); lit != nil && lit.Parent() == h {
+						litCls := func(v ssa.Value) string {
+							sl := backSlice(v)
+							d, e := false, false
+							mem := map[string]bool{}
+							note := func(s string) {
+								if strings.HasPrefix(s, "doc") {
+									d = true
+									if m := memberRe0.FindString(s); m != "" {
+										mem[m] = true
+									}
+								}
+								if s == "entry" || strings.HasSuffix(s, "+entry") {
+									e = true
+								}
+							}
+							for x := range sl {
+								switch y := x.(type) {
+								case *ssa.Parameter:
+									if k := paramIndex(y); y.Parent() == lit && k < len(cl.Call.Args) {
+										note(cls(cl.Call.Args[k]))
+									}
+								case *ssa.FreeVar:
+									if bnd := bindingOf(cl, lit, y); bnd != nil {
+										note(cls(bnd))
+									}
+								}
+							}
+							var ms []string
+							for m := range mem {
+								ms = append(ms, m)
+							}
+							sort.Strings(ms)
+							switch {
+							case d && e:
+								return "doc" + strings.Join(ms, "") + "+entry"
+							case d:
+								return "doc" + strings.Join(ms, "")
+							case e:
+								return "entry"
+							}
+							return "fresh"
 						}
-					case *ssa.Store:
-						// the replace-by-id search written in place: list[i] = element under ID(list[i]) == ID(element)
-						if _, val, ok := c.replaceByIDStore(x); ok {
-							kind = "update-in-place(" + classify(val) + "-element)"
+						for _, lb := range lit.Blocks {
+							for _, lin := range lb.Instrs {
+								scan(lin, lb, func(x *ssa.BasicBlock) bool { return x.Parent() == lit }, litCls, depth+1)
+							}
 						}
 					}
-					if kind == "" {
+				}
+				kind := ""
+				switch x := in.(type) {
+				case *ssa.Call:
+					if bi, isB := x.Call.Value.(*ssa.Builtin); isB && bi.Name() == "append" {
+						kind = "append(" + cls(x.Call.Args[1]) + "-element)"
+					} else if g := x.Call.StaticCallee(); g != nil && inModule(g) && g.Signature.Results().Len() == 0 && len(x.Call.Args) == 2 && c.replacesByID(g) {
+						kind = "update-in-place(" + cls(x.Call.Args[1]) + "-element)"
+					}
+				case *ssa.Store:
+					// the replace-by-id search written in place: list[i] = element under ID(list[i]) == ID(element)
+					if _, val, ok := c.replaceByIDStore(x); ok {
+						kind = "update-in-place(" + cls(val) + "-element)"
+					}
+				}
+				if kind == "" {
+					return
+				}
+				// controlling membership test: dominating If on the ok of a Lookup
+				pol, from := "unconditional", "-"
+				for x := b; x != nil; x = x.Idom() {
+					id := x.Idom()
+					if id == nil || len(x.Preds) != 1 {
 						continue
 					}
-					// controlling membership test: dominating If on the ok of a Lookup
-					pol, from := "unconditional", "-"
-					for x := b; x != nil; x = x.Idom() {
-						id := x.Idom()
-						if id == nil || len(x.Preds) != 1 {
-							continue
-						}
-						iff, isIf := id.Instrs[len(id.Instrs)-1].(*ssa.If)
-						if !isIf || !l.blocks[id] {
-							continue
-						}
-						cond := iff.Cond
-						neg := false
-						if u, isU := cond.(*ssa.UnOp); isU && u.Op == token.NOT {
-							cond, neg = u.X, true
-						}
-						// the membership test: ok of a comma-ok lookup, the value of a bool-valued set m[k], or a
-						// membership function (slices.Contains and the module's own) over a list
-						var set ssa.Value
-						switch y := cond.(type) {
-						case *ssa.Extract:
-							if lk, isLk := y.Tuple.(*ssa.Lookup); isLk && y.Index == 1 {
-								set = lk.X
-							}
-						case *ssa.Lookup:
-							if mt, isM := y.X.Type().Underlying().(*types.Map); isM && !y.CommaOk {
-								if bt, isB := mt.Elem().Underlying().(*types.Basic); isB && bt.Kind() == types.Bool {
-									set = y.X
-								}
-							}
-						case *ssa.Call:
-							if g := y.Call.StaticCallee(); g != nil && len(y.Call.Args) == 2 && boolResult(g) {
-								if si, isMap := c.isMapMembershipFn(g); isMap {
-									set = y.Call.Args[si]
-								} else if isM, _ := c.isMembershipFn(g); isM {
-									set, _ = memberArgs(y)
-								}
-							}
-						}
-						if set == nil {
-							continue
-						}
-						taken := id.Succs[0] == x
-						isOK := taken != neg
-						if isOK {
-							pol = "if-member"
-						} else {
-							pol = "if-not-member"
-						}
-						from = classify(set)
-						break
+					iff, isIf := id.Instrs[len(id.Instrs)-1].(*ssa.If)
+					if !isIf || !inFrame(id) {
+						continue
 					}
-					out = append(out, fmt.Sprintf("loop over %s: %s %s of set built from %s", loopOver, kind, pol, from))
+					cond := iff.Cond
+					neg := false
+					if u, isU := cond.(*ssa.UnOp); isU && u.Op == token.NOT {
+						cond, neg = u.X, true
+					}
+					// the membership test: ok of a comma-ok lookup, the value of a bool-valued set m[k], or a
+					// membership function (slices.Contains and the module's own) over a list
+					var set ssa.Value
+					switch y := cond.(type) {
+					case *ssa.Extract:
+						if lk, isLk := y.Tuple.(*ssa.Lookup); isLk && y.Index == 1 {
+							set = lk.X
+						}
+					case *ssa.Lookup:
+						if mt, isM := y.X.Type().Underlying().(*types.Map); isM && !y.CommaOk {
+							if bt, isB := mt.Elem().Underlying().(*types.Basic); isB && bt.Kind() == types.Bool {
+								set = y.X
+							}
+						}
+					case *ssa.Call:
+						if g := y.Call.StaticCallee(); g != nil && len(y.Call.Args) == 2 && boolResult(g) {
+							if si, isMap := c.isMapMembershipFn(g); isMap {
+								set = y.Call.Args[si]
+							} else if isM, _ := c.isMembershipFn(g); isM {
+								set, _ = memberArgs(y)
+							}
+						}
+					}
+					if set == nil {
+						continue
+					}
+					taken := id.Succs[0] == x
+					isOK := taken != neg
+					if isOK {
+						pol = "if-member"
+					} else {
+						pol = "if-not-member"
+					}
+					from = cls(set)
+					break
+				}
+				out = append(out, fmt.Sprintf("loop over %s: %s %s of set built from %s", loopOver, kind, pol, from))
+			}
+			for b := range l.blocks {
+				for _, in := range b.Instrs {
+					scan(in, b, func(x *ssa.BasicBlock) bool { return l.blocks[x] }, classify, 0)
 				}
 			}
 		}
@@ -906,11 +1089,15 @@ func (c *Ctx) composerSkeletons(rule string, handlers map[string]*ssa.Function) 
 		// add-handlers start from the existing entries in order: append(nil, existing...)
 		if strings.HasPrefix(a, "add-") {
 			okInit := false
-			forEachInstr(h, func(in ssa.Instruction) {
+			ht := hostOf(h)
+			fromDocOnly := func(v ssa.Value) bool {
+				cls := ht.classify(v)
+				return strings.HasPrefix(cls, "doc") && !strings.HasSuffix(cls, "+entry")
+			}
+			forEachInstr(ht.fn, func(in ssa.Instruction) {
 				if cl, ok := in.(*ssa.Call); ok {
-					if bi, isB := cl.Call.Value.(*ssa.Builtin); isB && bi.Name() == "append" && c.Path(cl.Call.Args[0], nil) == "nil" && cl.Block() == h.Blocks[0] {
-						sl := backSlice(cl.Call.Args[1])
-						if sliceHas(sl, isParam(h, 0)) && !sliceHas(sl, isParam(h, 1)) {
+					if bi, isB := cl.Call.Value.(*ssa.Builtin); isB && bi.Name() == "append" && (c.Path(cl.Call.Args[0], nil) == "nil" || freshCellLoad(cl.Call.Args[0])) && cl.Block() == ht.fn.Blocks[0] {
+						if fromDocOnly(cl.Call.Args[1]) {
 							okInit = true
 						}
 					}
@@ -922,8 +1109,7 @@ func (c *Ctx) composerSkeletons(rule string, handlers map[string]*ssa.Function) 
 								if _, isK := e.(*ssa.Const); isK || e == ssa.Value(cl) || !phi.Block().Preds[i].Dominates(phi.Block()) {
 									continue
 								}
-								sl := backSlice(e)
-								if sliceHas(sl, isParam(h, 0)) && !sliceHas(sl, isParam(h, 1)) {
+								if fromDocOnly(e) {
 									okInit = true
 								}
 							}
@@ -1009,6 +1195,9 @@ func (c *Ctx) composerSkeletons(rule string, handlers map[string]*ssa.Function) 
 			continue
 		}
 		bad := c.earlyLoopExits(h)
+		if ht := hostOf(h); ht.fn != h {
+			bad = append(bad, c.earlyLoopExits(ht.fn)...)
+		}
 		c.Check(rule, a+":loops-visit-every-element", len(bad) == 0, h.Pos(), fmt.Sprintf("%s: no loop is left before its last element except by an error return", h.Name()), bad...)
 	}
 	// the keyed add-handlers replace by id: through a helper (checked by replacesByID at the call) or in place
@@ -1018,7 +1207,15 @@ func (c *Ctx) composerSkeletons(rule string, handlers map[string]*ssa.Function) 
 			continue
 		}
 		n := 0
-		forEachInstr(h, func(in ssa.Instruction) {
+		hf := hostOf(h).fn
+		// (the handler's own instructions and those of the function literals it declares)
+		each := func(fn func(in ssa.Instruction)) {
+			forEachInstr(hf, fn)
+			for _, lit := range hf.AnonFuncs {
+				forEachInstr(lit, fn)
+			}
+		}
+		each(func(in ssa.Instruction) {
 			switch x := in.(type) {
 			case *ssa.Call:
 				if g := x.Call.StaticCallee(); g != nil && inModule(g) && g.Signature.Results().Len() == 0 && len(x.Call.Args) == 2 && c.replacesByID(g) {
@@ -1459,6 +1656,7 @@ func (c *Ctx) jsonPatchFoldRule(rule string) {
 					if cs["copy"] && cs["from"] && cs["path"] && !cs["add"] && !cs["replace"] && !cs["test"] && !cs["value"] {
 						if !allowed[short(g.String())+"("] {
 							c.copyGuardRule(rule, g)
+							c.tokenUnescapeRule(rule)
 						}
 						allowed[short(g.String())+"("] = true
 					}
@@ -1523,60 +1721,100 @@ func (c *Ctx) copyGuardRule(rule string, g *ssa.Function) {
 		return ok && len(r.Results) == 1 && c.Path(r.Results[0], nil) == "nil"
 	}
 	n := 0
+	// where the comparison sits: the guard itself, or a boolean helper it asks ("does the source contain the
+	// destination?") — there the branch that lets the operation through is the one that hands back the answer under
+	// which the guard returns no error
+	type hostT struct {
+		fn     *ssa.Function
+		env    Env
+		accept func(b *ssa.BasicBlock) bool
+	}
+	hosts := []hostT{{g, nil, acceptNow}}
 	forEachInstr(g, func(in ssa.Instruction) {
-		bo, ok := in.(*ssa.BinOp)
-		if !ok || !isCmp(bo.Op) {
+		cl, ok := in.(*ssa.Call)
+		if !ok || !isBoolType(cl.Type()) || cl.Referrers() == nil {
 			return
 		}
-		sx, sy := side(c.Path(bo.X, nil)), side(c.Path(bo.Y, nil))
-		if sx == "" || sy == "" || sx == sy {
+		h := cl.Call.StaticCallee()
+		if h == nil || !inModule(h) || h.Blocks == nil || pkgPathOf(h) != pkgPathOf(g) || h.Object() == nil || h.Object().Exported() {
 			return
 		}
-		n++
-		var iff *ssa.If
-		for _, r := range *bo.Referrers() {
-			if i, isIf := r.(*ssa.If); isIf {
-				iff = i
+		for _, e := range boolEdges(cl, true) {
+			other := e.from.Succs[0]
+			if other == e.to {
+				other = e.from.Succs[1]
 			}
-		}
-		if iff == nil {
-			c.Check(rule, "copy-guard:token-count-test", false, bo.Pos(), "the comparison of the token counts does not decide a branch: not understood")
-			return
-		}
-		b := iff.Block()
-		a0, a1 := acceptNow(b.Succs[0]), acceptNow(b.Succs[1])
-		if a0 == a1 {
-			c.Check(rule, "copy-guard:token-count-test", false, bo.Pos(), "expected exactly one branch of the token-count test to let the operation through at once")
-			return
-		}
-		// orderings of (count(from) - count(path)) under which the letting-through branch is taken
-		var let []string
-		for _, o := range []int{-1, 0, 1} {
-			d := o // X - Y
-			if sx == "path" {
-				d = -o
+			aT, aF := acceptNow(e.to), acceptNow(other)
+			if aT == aF {
+				continue
 			}
-			var v bool
-			switch bo.Op {
-			case token.LSS:
-				v = d < 0
-			case token.LEQ:
-				v = d <= 0
-			case token.GTR:
-				v = d > 0
-			case token.GEQ:
-				v = d >= 0
-			case token.EQL:
-				v = d == 0
-			case token.NEQ:
-				v = d != 0
-			}
-			if v == a0 {
-				let = append(let, map[int]string{-1: "from<path", 0: "from=path", 1: "from>path"}[o])
-			}
+			letVal := fmt.Sprint(aT)
+			hosts = append(hosts, hostT{h, c.calleeEnv(&cl.Call, h, nil), func(b *ssa.BasicBlock) bool {
+				r, ok := b.Instrs[len(b.Instrs)-1].(*ssa.Return)
+				return ok && len(r.Results) == 1 && c.Path(r.Results[0], nil) == letVal
+			}})
 		}
-		c.Check(rule, "copy-guard:token-count-test", eqStrs(let, []string{"from=path", "from>path"}), bo.Pos(), fmt.Sprintf("a copy is let through without comparing tokens when %v (expected exactly [from=path from>path]: only a proper prefix can contain its destination)", let))
 	})
+	for _, ht := range hosts {
+		henv, acceptNow := ht.env, ht.accept
+		forEachInstr(ht.fn, func(in ssa.Instruction) {
+			bo, ok := in.(*ssa.BinOp)
+			if !ok || !isCmp(bo.Op) {
+				return
+			}
+			if os.Getenv("STCHECK_CG") != "" {
+				fmt.Printf("CG %s: %s | %s\n", ht.fn.Name(), c.Path(bo.X, henv), c.Path(bo.Y, henv))
+			}
+			sx, sy := side(c.Path(bo.X, henv)), side(c.Path(bo.Y, henv))
+			if sx == "" || sy == "" || sx == sy {
+				return
+			}
+			n++
+			var iff *ssa.If
+			for _, r := range *bo.Referrers() {
+				if i, isIf := r.(*ssa.If); isIf {
+					iff = i
+				}
+			}
+			if iff == nil {
+				c.Check(rule, "copy-guard:token-count-test", false, bo.Pos(), "the comparison of the token counts does not decide a branch: not understood")
+				return
+			}
+			b := iff.Block()
+			a0, a1 := acceptNow(b.Succs[0]), acceptNow(b.Succs[1])
+			if a0 == a1 {
+				c.Check(rule, "copy-guard:token-count-test", false, bo.Pos(), "expected exactly one branch of the token-count test to let the operation through at once")
+				return
+			}
+			// orderings of (count(from) - count(path)) under which the letting-through branch is taken
+			var let []string
+			for _, o := range []int{-1, 0, 1} {
+				d := o // X - Y
+				if sx == "path" {
+					d = -o
+				}
+				var v bool
+				switch bo.Op {
+				case token.LSS:
+					v = d < 0
+				case token.LEQ:
+					v = d <= 0
+				case token.GTR:
+					v = d > 0
+				case token.GEQ:
+					v = d >= 0
+				case token.EQL:
+					v = d == 0
+				case token.NEQ:
+					v = d != 0
+				}
+				if v == a0 {
+					let = append(let, map[int]string{-1: "from<path", 0: "from=path", 1: "from>path"}[o])
+				}
+			}
+			c.Check(rule, "copy-guard:token-count-test", eqStrs(let, []string{"from=path", "from>path"}), bo.Pos(), fmt.Sprintf("a copy is let through without comparing tokens when %v (expected exactly [from=path from>path]: only a proper prefix can contain its destination)", let))
+		})
+	}
 	if n == 0 {
 		c.Check(rule, "copy-guard:token-count-test", false, g.Pos(), "no comparison of the token counts of \"from\" and \"path\" in the copy guard: shape not understood")
 	}
@@ -1877,6 +2115,75 @@ func (c *Ctx) listAccessorLoopsRule(rule string) {
 		}
 		c.Check(rule, pn+":every-entry-handed-on", len(bad) == 0 && nLoops > 0, pf.Pos(), pn+": the loop over the list's entries is left only at its end", bad...)
 	}
+	// … and the list-valued accessors of the key and service types hand back what those three parse, entry for entry:
+	// an accessor that walks the list itself appends on every iteration (one that drops repeated or unknown entries makes
+	// the validator count, and the composer store, something other than the patch's own list)
+	for _, tn := range []string{"PublicKey", "Service"} {
+		nt := c.NamedType("document", tn)
+		if nt == nil {
+			c.Unresolved(rule, "document."+tn)
+			continue
+		}
+		for _, m := range c.methodsOf(nt) {
+			if m.Blocks == nil || m.Signature.Params().Len() != 0 || m.Signature.Results().Len() != 1 {
+				continue
+			}
+			if _, isSl := m.Signature.Results().At(0).Type().Underlying().(*types.Slice); !isSl {
+				continue
+			}
+			c.Analysed(m)
+			for _, h := range append([]*ssa.Function{m}, c.helpersOf(m, 1)...) {
+				if pkgPathOf(h) != modPkg+"document" || len(naturalLoops(h)) == 0 {
+					continue
+				}
+				switch h.Name() {
+				case "ParsePublicKeys", "ParseServices", "StringArray":
+					continue
+				}
+				bad := c.earlyLoopExits(h)
+				forEachInstr(h, func(in ssa.Instruction) {
+					cl, ok := in.(*ssa.Call)
+					if !ok {
+						return
+					}
+					if b, isB := cl.Call.Value.(*ssa.Builtin); !isB || b.Name() != "append" {
+						return
+					}
+					for _, l := range naturalLoops(h) {
+						if l.blocks[cl.Block()] && !everyIterationOf(l, cl.Block()) {
+							bad = append(bad, c.pos(cl.Pos())+": an entry is handed back only under a condition")
+						}
+					}
+				})
+				c.Check(rule, tn+"."+m.Name()+":every-entry-handed-back", len(bad) == 0, h.Pos(), fmt.Sprintf("(%s).%s hands back every entry of the member's list", tn, m.Name()), bad...)
+			}
+		}
+	}
+}
+
+// everyIterationOf: block b of loop l runs on every iteration (every path from the loop's body entry back to the header
+// passes through b).
+func everyIterationOf(l *loop, b *ssa.BasicBlock) bool {
+	cut := map[edge]bool{}
+	for _, s := range b.Succs {
+		cut[edge{from: b, to: s}] = true
+	}
+	for _, e := range l.bodyEntries() {
+		if e == b {
+			continue
+		}
+		for x := range reach(e, cut) {
+			if x == b || !l.blocks[x] {
+				continue
+			}
+			for _, s := range x.Succs {
+				if s == l.header {
+					return false
+				}
+			}
+		}
+	}
+	return true
 }
 
 // patchFormatConstRule: format strings in the patch package are constants: caller-supplied JSON never takes the place of a format
@@ -1932,7 +2239,38 @@ func (c *Ctx) patchAccessorRules(cfgFn *ssa.Function) {
 		c.Check("C14.G1", "FromBytes:returns-decoded", A == "makemap<patch.Patch>" || A == "new<patch.Patch>#0", fb.Pos(), "FromBytes returns the decoded patch "+A)
 		// GetValue
 		act := short(ga.String()) + "($0)#0"
-		c.CheckGuard("C14.G1", "GetValue:own-action", gv, nil, callTo("GetAction()", ga, pathIs("$0")))
+		// GetAction may be a thin projection of an unexported helper that GetValue calls as well (one lookup yielding the
+		// action and its value key): that helper is then "the action of this patch", its key result the action's key
+		var core *ssa.Function
+		coreKeyIdx := -1
+		if srs := successReturns(ga); len(srs) == 1 {
+			if ex, isEx := returnedValue(srs[0], 0).(*ssa.Extract); isEx && ex.Index == 0 {
+				if cl, isC := ex.Tuple.(*ssa.Call); isC {
+					if h := cl.Call.StaticCallee(); h != nil && inModule(h) && h.Blocks != nil && h.Object() != nil && !h.Object().Exported() && len(cl.Call.Args) == 1 && c.Path(cl.Call.Args[0], nil) == "$0" {
+						core = h
+					}
+				}
+			}
+		}
+		if core != nil {
+			c.Analysed(core)
+			for _, r := range successReturns(core) {
+				a0 := c.Path(returnedValue(r, 0), nil)
+				for k := 1; k < len(r.Results)-1; k++ {
+					if strings.TrimSuffix(c.Path(returnedValue(r, k), nil), "#0") == "global:patch.actionConfig["+a0+"]" {
+						coreKeyIdx = k
+					}
+				}
+			}
+			if len(callsTo(gv, core)) > 0 {
+				act = short(core.String()) + "($0)#0"
+			}
+		}
+		ownAction := callTo("GetAction()", ga, pathIs("$0"))
+		if core != nil {
+			ownAction = anyOf("GetAction() or the helper GetAction is a projection of", ownAction, callTo(core.Name()+"()", core, pathIs("$0")))
+		}
+		c.CheckGuard("C14.G1", "GetValue:own-action", gv, nil, ownAction)
 		// the action GetAction hands back is a key of actionConfig (the lookup's index is the value it returns): a plain
 		// actionConfig[action] in GetValue is then a lookup that cannot miss
 		gaRet := ""
@@ -1954,12 +2292,22 @@ func (c *Ctx) patchAccessorRules(cfgFn *ssa.Function) {
 			if noOK(p) == "global:patch.actionConfig["+a+"]" {
 				return true
 			}
+			if core != nil && coreKeyIdx > 0 && a == short(core.String())+"($0)#0" && p == fmt.Sprintf("%s($0)#%d", short(core.String()), coreKeyIdx) {
+				return true
+			}
 			return cfgFn != nil && p == short(cfgFn.String())+"("+a+")#0"
 		}
-		gaMember, _, gaN := c.Guard(ga, nil, cfgOK("actionConfig[returned action] ok", pathIs(gaRet)), nil)
+		gaHost := ga
+		if core != nil {
+			gaHost = core
+			for _, r := range successReturns(core) {
+				gaRet = c.Path(r.Results[0], nil)
+			}
+		}
+		gaMember, _, gaN := c.Guard(gaHost, nil, cfgOK("actionConfig[returned action] ok", pathIs(gaRet)), nil)
 		cfgLookup := cfgOK("actionConfig[action] ok", pathIs(act))
 		if gaMember && gaN > 0 {
-			c.CheckGuard("C14.G1", "GetValue:config-lookup", gv, nil, anyOf("actionConfig[action] ok, or the action is the one GetAction vouches for", cfgLookup, callTo("GetAction()", ga, pathIs("$0"))))
+			c.CheckGuard("C14.G1", "GetValue:config-lookup", gv, nil, anyOf("actionConfig[action] ok, or the action is the one GetAction vouches for", cfgLookup, ownAction))
 		} else {
 			c.CheckGuard("C14.G1", "GetValue:config-lookup", gv, nil, cfgLookup)
 		}
@@ -1980,6 +2328,248 @@ func (c *Ctx) patchAccessorRules(cfgFn *ssa.Function) {
 			lk, ok := v.(*ssa.Lookup)
 			return ok && c.Path(lk.X, env) == "$0" && c.Path(lk.Index, env) == `"action"`
 		}})
-		c.CheckGuard("C14.G1", "GetAction:supported", ga, nil, cfgOK("actionConfig[action] ok", func(string) bool { return true }))
+		c.CheckGuard("C14.G1", "GetAction:supported", gaHost, nil, cfgOK("actionConfig[action] ok", func(string) bool { return true }))
+		// the action reported is the "action" member as it stands (an Action, or a string converted to one): a
+		// normalised spelling (lower-cased, trimmed) makes the accessor disagree with the patch's own content
+		{
+			okAct := gaRet != ""
+			for _, part := range strings.Split(strings.TrimSuffix(strings.TrimPrefix(gaRet, "phi("), ")"), "|") {
+				if !regexp.MustCompile(`^(conv<[^>]*>\()?\$0\["action"\](#0)?\.\((patch\.Action|string)\)(#0)?\)?$`).MatchString(part) {
+					okAct = false
+				}
+			}
+			c.Check("C14.G1", "GetAction:member-as-it-stands", okAct, gaHost.Pos(), "GetAction hands back the \"action\" member itself: "+gaRet)
+		}
+		if core != nil {
+			c.CheckGuard("C14.G1", "GetAction:helper-required", ga, nil, callTo(core.Name()+"()", core, pathIs("$0")))
+		}
 	}
+}
+
+// localLiteral: the call invokes a function literal of the enclosing function — directly, or through the local variable
+// it was assigned to (once).
+func localLiteral(cl *ssa.Call) *ssa.Function {
+	if cl.Call.IsInvoke() {
+		return nil
+	}
+	switch x := cl.Call.Value.(type) {
+	case *ssa.MakeClosure:
+		f, _ := x.Fn.(*ssa.Function)
+		return f
+	case *ssa.Function:
+		if x.Parent() != nil {
+			return x
+		}
+		return nil
+	}
+	if f := resolveFuncVar(cl.Call.Value, 0); f != nil && f.Parent() != nil {
+		return f
+	}
+	return nil
+}
+
+// bindingOf: the cell of the enclosing function that the literal lit (called at cl) reads through its captured variable fv.
+func bindingOf(cl *ssa.Call, lit *ssa.Function, fv *ssa.FreeVar) ssa.Value {
+	idx := -1
+	for i, x := range lit.FreeVars {
+		if x == fv {
+			idx = i
+		}
+	}
+	if idx < 0 || lit.Parent() == nil {
+		return nil
+	}
+	var out ssa.Value
+	forEachInstr(lit.Parent(), func(in ssa.Instruction) {
+		if mc, ok := in.(*ssa.MakeClosure); ok && mc.Fn == ssa.Value(lit) && idx < len(mc.Bindings) {
+			out = mc.Bindings[idx]
+		}
+	})
+	return out
+}
+
+// freshCellLoad: v loads a local variable's cell in the function's entry block before anything was stored into it —
+// the variable's zero value (`var list []T`, kept in a cell because a function literal captures it).
+func freshCellLoad(v ssa.Value) bool {
+	ld, ok := v.(*ssa.UnOp)
+	if !ok || ld.Op != token.MUL || ld.Block() == nil || ld.Parent() == nil || ld.Block() != ld.Parent().Blocks[0] {
+		return false
+	}
+	cell, ok := ld.X.(*ssa.Alloc)
+	if !ok || cell.Block() != ld.Block() {
+		return false
+	}
+	seenCell := false
+	for _, in := range ld.Block().Instrs {
+		if in == ssa.Instruction(cell) {
+			seenCell = true
+			continue
+		}
+		if in == ssa.Instruction(ld) {
+			return seenCell
+		}
+		if !seenCell {
+			continue
+		}
+		switch x := in.(type) {
+		case *ssa.Store:
+			if x.Addr == ssa.Value(cell) {
+				return false
+			}
+		case *ssa.MakeClosure:
+			for _, b := range x.Bindings {
+				if b == ssa.Value(cell) {
+					// captured before the load: the literal is only made here, not run
+					continue
+				}
+			}
+		case ssa.CallInstruction:
+			for _, a := range x.Common().Args {
+				if a == ssa.Value(cell) {
+					return false
+				}
+			}
+			// a literal that captures the cell may have been made already and could be run by this call
+			if _, isBuiltin := x.Common().Value.(*ssa.Builtin); !isBuiltin && x.Common().StaticCallee() == nil {
+				return false
+			}
+		}
+	}
+	return false
+}
+
+// tokenUnescapeRule: the copy guard compares reference tokens after RFC 6901 unescaping — "~1" stands for "/" and "~0"
+// for "~", and "~01" is the text "~1": the two replacements are made in one pass (a strings.Replacer built from exactly
+// those two pairs) or "~1" first and "~0" second. The other order turns "~01" into "/", and two different members
+// look the same.
+func (c *Ctx) tokenUnescapeRule(rule string) {
+	st := c.Fn(pComposer, "sameToken")
+	if st == nil {
+		c.Unresolved(rule, "doccomposer.sameToken")
+		return
+	}
+	c.Analysed(st)
+	// how a value is derived from a token: the chain of replacement steps applied to the parameter, outermost last
+	var steps func(v ssa.Value, env map[ssa.Value]ssa.Value, d int) ([]string, ssa.Value)
+	steps = func(v ssa.Value, env map[ssa.Value]ssa.Value, d int) ([]string, ssa.Value) {
+		if d > 6 {
+			return nil, v
+		}
+		if a, ok := env[v]; ok {
+			return steps(a, nil, d+1)
+		}
+		cl, ok := v.(*ssa.Call)
+		if !ok {
+			return nil, v
+		}
+		if lit := localLiteral(cl); lit != nil {
+			rs := returnsOf(lit)
+			if len(rs) == 1 && len(rs[0].Results) == 1 {
+				e := map[ssa.Value]ssa.Value{}
+				for i, p := range lit.Params {
+					if i < len(cl.Call.Args) {
+						e[p] = cl.Call.Args[i]
+					}
+				}
+				return steps(rs[0].Results[0], e, d+1)
+			}
+			return nil, v
+		}
+		g := cl.Call.StaticCallee()
+		if g == nil {
+			return nil, v
+		}
+		switch g.String() {
+		case "strings.ReplaceAll":
+			in, root := steps(cl.Call.Args[0], env, d+1)
+			return append(in, c.Path(cl.Call.Args[1], nil)+"->"+c.Path(cl.Call.Args[2], nil)), root
+		case "strings.Replace":
+			if c.Path(cl.Call.Args[3], nil) != "-1" {
+				return []string{"?"}, v
+			}
+			in, root := steps(cl.Call.Args[0], env, d+1)
+			return append(in, c.Path(cl.Call.Args[1], nil)+"->"+c.Path(cl.Call.Args[2], nil)), root
+		case "(*strings.Replacer).Replace":
+			in, root := steps(cl.Call.Args[1], env, d+1)
+			return append(in, "replacer{"+strings.Join(c.replacerPairs(cl.Call.Args[0]), ",")+"}"), root
+		}
+		if inModule(g) && g.Blocks != nil && len(g.Params) == 1 && len(cl.Call.Args) == 1 {
+			rs := returnsOf(g)
+			if len(rs) == 1 && len(rs[0].Results) == 1 {
+				return steps(rs[0].Results[0], map[ssa.Value]ssa.Value{g.Params[0]: cl.Call.Args[0]}, d+1)
+			}
+		}
+		return nil, v
+	}
+	n := 0
+	forEachInstr(st, func(in ssa.Instruction) {
+		bo, ok := in.(*ssa.BinOp)
+		if !ok || (bo.Op != token.EQL && bo.Op != token.NEQ) || !isStringType(bo.X.Type()) {
+			return
+		}
+		sx, rx := steps(bo.X, nil, 0)
+		sy, ry := steps(bo.Y, nil, 0)
+		px, isPX := rx.(*ssa.Parameter)
+		py, isPY := ry.(*ssa.Parameter)
+		if !isPX || !isPY || px == py || px.Parent() != st || py.Parent() != st {
+			return
+		}
+		n++
+		good := func(s []string) bool {
+			switch strings.Join(s, " ; ") {
+			case `replacer{"~0"->"~","~1"->"/"}`, `"~1"->"/" ; "~0"->"~"`:
+				return true
+			}
+			return false
+		}
+		c.Check(rule, "copy-guard:token-unescape", good(sx) && good(sy), bo.Pos(), fmt.Sprintf("the two reference tokens are compared after RFC 6901 unescaping, \"~1\" before \"~0\" or both in one pass: %v / %v", sx, sy))
+	})
+	if n == 0 {
+		c.Check(rule, "copy-guard:token-unescape", false, st.Pos(), "no comparison of the two reference tokens as texts found in sameToken: shape not understood")
+	}
+}
+
+// replacerPairs: the old->new pairs of a strings.Replacer held in a package-level variable initialised once with
+// strings.NewReplacer and constant arguments (sorted); nil when it cannot be told.
+func (c *Ctx) replacerPairs(v ssa.Value) []string {
+	ld, ok := v.(*ssa.UnOp)
+	if !ok || ld.Op != token.MUL {
+		return []string{"?"}
+	}
+	g, ok := ld.X.(*ssa.Global)
+	if !ok || g.Pkg == nil {
+		return []string{"?"}
+	}
+	var val ssa.Value
+	n := 0
+	for _, fn := range allFuncs(g.Pkg) {
+		forEachInstr(fn, func(in ssa.Instruction) {
+			if st, isS := in.(*ssa.Store); isS && st.Addr == ssa.Value(g) {
+				n++
+				if fn.Name() == "init" {
+					val = st.Val
+				}
+			}
+		})
+	}
+	cl, isC := val.(*ssa.Call)
+	if n != 1 || !isC || cl.Call.StaticCallee() == nil || cl.Call.StaticCallee().String() != "strings.NewReplacer" || len(cl.Call.Args) != 1 {
+		return []string{"?"}
+	}
+	vs, okV := c.varargValues(cl.Call.Args[0])
+	if !okV || len(vs)%2 != 0 {
+		return []string{"?"}
+	}
+	var out []string
+	for i := 0; i+1 < len(vs); i += 2 {
+		if _, k1 := vs[i].(*ssa.Const); !k1 {
+			return []string{"?"}
+		}
+		if _, k2 := vs[i+1].(*ssa.Const); !k2 {
+			return []string{"?"}
+		}
+		out = append(out, c.Path(vs[i], nil)+"->"+c.Path(vs[i+1], nil))
+	}
+	sort.Strings(out)
+	return out
 }
